@@ -291,7 +291,7 @@ def searchTyped (rx : Str → Str → Option Bool) (m : Method) (th tn : Typed) 
   | .regex =>
     match rx needle hay with
     | some b => .ok b
-    | none => .error (.crash .reError)
+    | none => .error (.ypath .generic)   -- re.error is re-raised as YAMLPathException (fix 149bd27)
 
 /-- `Searches.search_matches(method, term, haystack)` for a scalar haystack and a text term. -/
 def searchMatches (rx : Str → Str → Option Bool) (m : Method) (haystack : Scalar) (term : Str) :
